@@ -664,7 +664,7 @@ func TestC10Transcript(t *testing.T) {
 func TestC10(t *testing.T) {
 	h.Run(t, h.Prop[C10Case]{
 		ID:          "C10",
-		Rule:        "cases = a pool of 4 operands (an ordered pair from C01's generator, a valid geometry from the C14 generator incl. the float family, and a codec-style structure in a drawn coordinate type) plus a program of 5..40 API calls drawn through reflection over the whole public read API (every exported value-receiver method of Geometry, the concrete types, Envelope and Sequence, and 28 free functions: codecs, validation, predicates, set operations, hull, distance, simplification, transforms; one call in four is forced to be an overlay/relate call on the pair), a goroutine count 2..16, GOMAXPROCS in {2,4,16} and R-tree query boxes. Checks: (1) purity - the canonical rendering (WKB + WKT) of every pool operand is unchanged after every call, after the harness overwrites every slice a call returned, after the concurrent phase; constructors do not retain the slices passed to them; Sequence/LineString methods never write to the float slice handed to NewSequence; the shared bulk-loaded R-tree (Count, Extent, full listing, VerifCheck) is unchanged by searches; (2) determinism in process - every call is repeated 8x (32x thorough) and must return bit-identical results (WKB, matrix, error text, float bits); (3) 1 case in 20: a fresh process (other hash seeds) must produce the same transcript; (4) the program is issued from all goroutines at once on the shared operands and tree, in a binary built with -race and GORACE=halt_on_error=1: results must equal the sequential transcript and the race detector must stay silent. non-trivial = the program contains an overlay/relate call on the pair",
+		Rule:        "cases = a pool of 4 operands (an ordered pair from C01's generator, a valid geometry from the C14 generator incl. the float family, and a codec-style structure in a drawn coordinate type) each built by the public constructors or obtained from one of the four decoders, 1..3 geometries built without validation for Validate, plus a program of 5..40 API calls drawn through reflection over the whole public read API (every exported value-receiver method of Geometry, the concrete types, Envelope and Sequence, and 28 free functions: codecs, validation, predicates, set operations, hull, distance, simplification, transforms; one call in four is forced to be an overlay/relate call on the pair), a goroutine count 2..16, GOMAXPROCS in {2,4,16} and R-tree query boxes. Checks: (1) purity - the canonical rendering (WKB + WKT) of every pool operand is unchanged after every call, after the harness overwrites every slice a call returned, after the concurrent phase; constructors do not retain the slices passed to them; Sequence/LineString methods never write to the float slice handed to NewSequence; the shared bulk-loaded R-tree (Count, Extent, full listing, VerifCheck) is unchanged by searches; (2) determinism in process - every call is repeated 8x (32x thorough) and must return bit-identical results (WKB, matrix, error text, float bits); (3) 1 case in 20: a fresh process (other hash seeds) must produce the same transcript; (4) the program is issued from all goroutines at once on the shared operands and tree, in a binary built with -race and GORACE=halt_on_error=1: results must equal the sequential transcript and the race detector must stay silent. non-trivial = the program contains an overlay/relate call on the pair",
 		Assumptions: []string{"schedules are sampled, not enumerated: the Go scheduler cannot be controlled from a property library; the race detector flags unsynchronised conflicting accesses that occur in a run regardless of their exact timing", "argument synthesis only produces arguments meeting documented preconditions"},
 		Gen:         c10Gen,
 		Check:       c10Check,
